@@ -144,7 +144,10 @@ impl<'a> ArxmlLexer<'a> {
             let mut standalone: Option<bool> = None;
             for attr_text in splitter {
                 let (attr_name, attr_val) = if let Some(pos) = attr_text.iter().position(|c| *c == b'=') {
-                    (&attr_text[0..pos], &attr_text[pos + 2..attr_text.len() - 1])
+                    (
+                        &attr_text[0..pos],
+                        attr_text.get(pos + 2..attr_text.len() - 1).unwrap_or(&attr_text[0..0]),
+                    )
                 } else {
                     (attr_text, &attr_text[0..0])
                 };
